@@ -114,3 +114,115 @@ Section Test32.
       + exists e. rewrite (bind_err _ _ _ _ _ E). reflexivity.
   Qed.
 End Test32.
+
+(* ---- TEST r/m64, imm32 (sign-extended) and TEST RAX, imm32; TEST r/m32, imm32 and TEST EAX, imm32 ---- *)
+From AxV Require Import AluImmP AluImm32P.
+
+Section TestImm64.
+  Variables (c : cfg) (i : instr) (s : mstate).
+  Hypothesis Hwf : wf_regs s.
+  Hypothesis HI : Inv (mem s).
+  Hypothesis Hrf : 0 <= rflags s < 2 ^ 64.
+  Hypothesis Hn : i_op_count i = 2.
+  Hypothesis Hs0 : rm64_shape i 0.
+  Hypothesis Him : imm64_shape i.
+
+  Definition test_refines (w : Z) (run : outcome unit * mstate) : Prop :=
+    match isa_exec (SAlu TEST w) i s with
+    | IDone s' u => run = (Ok tt, s') /\ u = 0
+    | IFault FMem => exists e, run = (Err e, s)
+    | IFault _ => False
+    end.
+
+  Theorem test_rm64_imm32_refines : test_refines 64 (instr_test_rm64_imm32 c i s).
+  Proof.
+    unfold test_refines, instr_test_rm64_imm32.
+    destruct (imm_operand c i s Hn Him) as (v & O1 & RV & Hv).
+    assert (SA : lift (debug_assert_that c (8 =? 8)) s = (Ok tt, s)) by (unfold lift, debug_assert_that, assert_that; destruct (dbg c); reflexivity).
+    cbn [isa_exec]. unfold exec_alu. rewrite RV. unfold read_op.
+    destruct Hs0 as [[K0 H0]|[K0 Hm]]; rewrite K0.
+    - assert (S0 : is_supported (i_op_register i 0) = true) by (destruct (i_op_register i 0); try discriminate H0; reflexivity).
+      assert (O0 : instruction_operand c i 0 s = (Ok (OpRegister (i_op_register i 0)), s))
+        by (apply operand_register; [rewrite Hn; reflexivity|exact K0|reflexivity|exact S0]).
+      assert (OP : instruction_operands_2 c i s = (Ok (OpRegister (i_op_register i 0), OpImmediate v 8), s)).
+      { unfold instruction_operands_2. rewrite (bind_ok _ _ _ _ _ O0). rewrite (bind_ok _ _ _ _ _ O1). reflexivity. }
+      rewrite (bind_ok _ _ _ _ _ OP). cbv beta iota.
+      rewrite bind_assoc. rewrite (bind_ok _ _ _ _ _ SA). rewrite (bind_ok _ _ _ _ _ (eq_refl : ret v s = _)).
+      rewrite (bind_ok _ _ _ _ _ (reg_read_64_ok c _ s Hwf H0)). cbv zeta.
+      rewrite rf_read_mod64 by exact H0.
+      change (Z.lor (Z.lor FLAG_SF FLAG_ZF) FLAG_PF) with (arith_fs false false). change (Z.lor FLAG_OF FLAG_CF) with 2049.
+      rewrite (bind_ok _ _ _ _ _ (set_flags_u64_arith c false false _ s Hrf)).
+      cbn [alu b2f]. change (0 + 0) with 0. rewrite !Z.add_0_l. split; reflexivity.
+    - destruct (operand_address c i 0 s Hwf Hm ltac:(rewrite Hn; reflexivity) K0) as (O0 & EA & _).
+      assert (OP : instruction_operands_2 c i s = (Ok (OpMemory (memop_of i), OpImmediate v 8), s)).
+      { unfold instruction_operands_2. rewrite (bind_ok _ _ _ _ _ O0). rewrite (bind_ok _ _ _ _ _ O1). reflexivity. }
+      rewrite (bind_ok _ _ _ _ _ OP). cbv beta iota.
+      rewrite bind_assoc. rewrite (bind_ok _ _ _ _ _ SA). rewrite (bind_ok _ _ _ _ _ (eq_refl : ret v s = _)).
+      rewrite bind_assoc. rewrite (bind_ok _ _ _ _ _ EA).
+      unfold load. change (bytes_of 64) with 8%nat. change mem_read_64 with (mem_read_n 8).
+      destruct (mem_read_n_cases 8 (ea i s) s HI) as [(d & E & R)|(e & E)]; rewrite E.
+      + rewrite (bind_ok _ _ _ _ _ E). cbv zeta.
+        change (Z.lor (Z.lor FLAG_SF FLAG_ZF) FLAG_PF) with (arith_fs false false). change (Z.lor FLAG_OF FLAG_CF) with 2049.
+        rewrite (bind_ok _ _ _ _ _ (set_flags_u64_arith c false false _ s Hrf)).
+        cbn [alu b2f]. change (0 + 0) with 0. rewrite !Z.add_0_l. split; reflexivity.
+      + exists e. rewrite (bind_err _ _ _ _ _ E). reflexivity.
+  Qed.
+
+  Theorem test_rax_imm32_refines : i_code i = C_Test_RAX_imm32 -> test_refines 64 (instr_test_rax_imm32 c i s).
+  Proof.
+    intros Ec. unfold instr_test_rax_imm32. rewrite Ec. rewrite (bind_ok _ _ _ _ _ (dbg_code_ok c s _ eq_refl)).
+    exact test_rm64_imm32_refines.
+  Qed.
+End TestImm64.
+
+Section TestImm32.
+  Variables (c : cfg) (i : instr) (s : mstate).
+  Hypothesis Hwf : wf_regs s.
+  Hypothesis HI : Inv (mem s).
+  Hypothesis Hrf : 0 <= rflags s < 2 ^ 64.
+  Hypothesis Hn : i_op_count i = 2.
+  Hypothesis Hs0 : rm32_shape i 0.
+  Hypothesis Him : imm32_shape i.
+
+  Theorem test_rm32_imm32_refines : test_refines i s 32 (instr_test_rm32_imm32 c i s).
+  Proof.
+    unfold test_refines, instr_test_rm32_imm32.
+    destruct (imm32_operand c i s Hn Him) as (dd & v & O1 & CV & RV & Hv).
+    assert (SA : lift (debug_assert_that c (4 =? 4)) s = (Ok tt, s)) by (unfold lift, debug_assert_that, assert_that; destruct (dbg c); reflexivity).
+    cbn [isa_exec]. unfold exec_alu. rewrite RV. unfold read_op.
+    destruct Hs0 as [[K0 H0]|[K0 Hm]]; rewrite K0.
+    - assert (O0 : instruction_operand c i 0 s = (Ok (OpRegister (i_op_register i 0)), s))
+        by (apply operand_register; [rewrite Hn; reflexivity|exact K0|reflexivity|apply gpr32_supported; exact H0]).
+      assert (OP : instruction_operands_2 c i s = (Ok (OpRegister (i_op_register i 0), OpImmediate dd 4), s)).
+      { unfold instruction_operands_2. rewrite (bind_ok _ _ _ _ _ O0). rewrite (bind_ok _ _ _ _ _ O1). reflexivity. }
+      assert (Hd : 0 <= rf_read (regs s) (i_op_register i 0) < 2 ^ 32) by (apply rf_read_range32; exact H0).
+      rewrite (bind_ok _ _ _ _ _ OP). cbv beta iota.
+      rewrite bind_assoc. rewrite (bind_ok _ _ _ _ _ SA). rewrite (bind_ok _ _ _ _ _ (eq_refl : ret (cast U64 U32 dd) s = _)).
+      rewrite CV.
+      rewrite (bind_ok _ _ _ _ _ (reg_read_32_ok c _ s Hwf H0)). cbv zeta.
+      rewrite rf_read_mod32 by exact H0. rewrite (cast_u64_u32_id _ Hd).
+      change (Z.lor (Z.lor FLAG_SF FLAG_ZF) FLAG_PF) with (arith_fs false false). change (Z.lor FLAG_OF FLAG_CF) with 2049.
+      rewrite (bind_ok _ _ _ _ _ (set_flags_u32_arith c false false _ s Hrf)).
+      cbn [alu b2f]. change (0 + 0) with 0. rewrite !Z.add_0_l. split; reflexivity.
+    - destruct (operand_address c i 0 s Hwf Hm ltac:(rewrite Hn; reflexivity) K0) as (O0 & EA & _).
+      assert (OP : instruction_operands_2 c i s = (Ok (OpMemory (memop_of i), OpImmediate dd 4), s)).
+      { unfold instruction_operands_2. rewrite (bind_ok _ _ _ _ _ O0). rewrite (bind_ok _ _ _ _ _ O1). reflexivity. }
+      rewrite (bind_ok _ _ _ _ _ OP). cbv beta iota.
+      rewrite bind_assoc. rewrite (bind_ok _ _ _ _ _ SA). rewrite (bind_ok _ _ _ _ _ (eq_refl : ret (cast U64 U32 dd) s = _)).
+      rewrite CV.
+      rewrite bind_assoc. rewrite (bind_ok _ _ _ _ _ EA).
+      unfold load. change (bytes_of 32) with 4%nat. change mem_read_32 with (mem_read_n 4).
+      destruct (mem_read_n_cases 4 (ea i s) s HI) as [(d & E & R)|(e & E)]; rewrite E.
+      + rewrite (bind_ok _ _ _ _ _ E). cbv zeta. rewrite (cast_u64_u32_id _ R).
+        change (Z.lor (Z.lor FLAG_SF FLAG_ZF) FLAG_PF) with (arith_fs false false). change (Z.lor FLAG_OF FLAG_CF) with 2049.
+        rewrite (bind_ok _ _ _ _ _ (set_flags_u32_arith c false false _ s Hrf)).
+        cbn [alu b2f]. change (0 + 0) with 0. rewrite !Z.add_0_l. split; reflexivity.
+      + exists e. rewrite (bind_err _ _ _ _ _ E). reflexivity.
+  Qed.
+
+  Theorem test_eax_imm32_refines : i_code i = C_Test_EAX_imm32 -> test_refines i s 32 (instr_test_eax_imm32 c i s).
+  Proof.
+    intros Ec. unfold instr_test_eax_imm32. rewrite Ec. rewrite (bind_ok _ _ _ _ _ (dbg_code_ok c s _ eq_refl)).
+    exact test_rm32_imm32_refines.
+  Qed.
+End TestImm32.
